@@ -490,8 +490,7 @@ func (c *Cluster) Crash(name string) (bool, error) {
 	n := c.node(name)
 	dbDir := n.dir + "/db"
 	saved := n.dir + "/db.crash"
-	_ = os.RemoveAll(saved)
-	if err := copyDir(dbDir, saved); err != nil {
+	if err := stableCopy(dbDir, saved); err != nil {
 		return false, err
 	}
 	wasLeader := n.Leader != nil
@@ -522,6 +521,36 @@ func (c *Cluster) Crash(name string) (bool, error) {
 	n.Follower = nf
 	c.mu.Unlock()
 	return wasLeader, nil
+}
+
+// stableCopy copies a directory that a running Pebble instance may still be changing (flush, compaction):
+// the copy is repeated until the directory listing (names, sizes, modification times) is the same before
+// and after it, so that the image is one that the file system held at some instant.
+func stableCopy(src, dst string) error {
+	listing := func() string {
+		var b []string
+		_ = filepath.Walk(src, func(p string, info os.FileInfo, err error) error {
+			if err == nil && !info.IsDir() {
+				b = append(b, fmt.Sprintf("%s/%d/%d", p, info.Size(), info.ModTime().UnixNano()))
+			}
+			return nil
+		})
+		return fmt.Sprint(b)
+	}
+	var err error
+	for attempt := 0; attempt < 40; attempt++ {
+		before := listing()
+		_ = os.RemoveAll(dst)
+		err = copyDir(src, dst)
+		if err == nil && listing() == before {
+			return nil
+		}
+		time.Sleep(5 * time.Millisecond)
+	}
+	if err == nil {
+		err = errors.New("database directory did not come to rest")
+	}
+	return err
 }
 
 func copyDir(src, dst string) error {
